@@ -86,7 +86,28 @@ type c16Witness struct {
 func c16Observe(c *core.Ctx, mask int, other string, want rules.CosmeticOption) (obs rules.CosmeticOption, ok bool) {
 	text := c16RuleText(c, mask)
 	ok = true
+	// When the exception also matches the referrer and carries $urlblock,
+	// $document or $genericblock, it suppresses the (generic) blocking rule next
+	// to it, so the exception itself is the verdict whatever the other rule is.
+	wantWithReferrer := want
+	hasBit := func(name string) bool {
+		for i, m := range c16Mods {
+			if m == name {
+				return mask&(1<<i) != 0
+			}
+		}
+
+		return false
+	}
+	if hasBit("urlblock") || hasBit("document") || hasBit("genericblock") {
+		wantWithReferrer = c16Expected(mask)
+	}
+	baseWant := want
 	judge := func(via string, got rules.CosmeticOption) {
+		want := baseWant
+		if strings.Contains(via, "referrer") && !strings.Contains(via, "unrelated") {
+			want = wantWithReferrer
+		}
 		c.Eval(1)
 		if got != want {
 			ok = false
@@ -117,6 +138,10 @@ func c16Observe(c *core.Ctx, mask int, other string, want rules.CosmeticOption) 
 		}
 	}
 	judge("NewMatchingResult", rules.NewMatchingResult(rs, nil).GetCosmeticOption())
+	// The same rules may match the referrer as well (a page requesting itself,
+	// or a sub-request of a page covered by the same exception): the exception
+	// of the request itself still decides the options.
+	judge("NewMatchingResult(with the same rules as referrer rules)", rules.NewMatchingResult(append([]*rules.NetworkRule(nil), rs...), append([]*rules.NetworkRule(nil), rs...)).GetCosmeticOption())
 
 	// Path 2: the full engine on a document request.
 	list := []string{text, "##.generic-banner", "example.org##.specific-banner"}
@@ -129,6 +154,10 @@ func c16Observe(c *core.Ctx, mask int, other string, want rules.CosmeticOption) 
 	res := eng.MatchRequest(req)
 	got := res.GetCosmeticOption()
 	judge("Engine.MatchRequest", got)
+	for _, src := range []string{"http://example.org/", "http://example.org/other/page"} {
+		judge("Engine.MatchRequest(with referrer)", eng.MatchRequest(rules.NewRequest("http://example.org/", src, rules.TypeDocument)).GetCosmeticOption())
+	}
+	judge("Engine.MatchRequest(unrelated source)", eng.MatchRequest(rules.NewRequest("http://example.org/", "http://unrelated.example.net/", rules.TypeDocument)).GetCosmeticOption())
 
 	// Path 3: decoded by GetCosmeticResult.
 	cr := eng.GetCosmeticResult("example.org", got)
